@@ -288,7 +288,11 @@ mutual
       | .bin op a b => do
         let v1 ← eval funcs depth fuel a
         let v2 ← eval funcs depth fuel b
-        liftM (evalBin op v1 v2)
+        -- `==` / `!=` on tables and tuples compare addresses: both operands are the same variable slot
+        let same : Bool := match a, b with
+          | .var x, .var y => x == y
+          | _, _ => false
+        liftM (evalBin op v1 v2 same)
       | .call "tab" args => biTab (m := EvalM) (args.map (eval funcs depth fuel))
       | .call "tup" args => biTup (m := EvalM) (args.map (eval funcs depth fuel))
       | .call name args =>
